@@ -249,8 +249,8 @@ def build() -> Check:
             "Usability rule after noise as in C16: stuffing and P1 - all clean messages but possibly the first; no stuffing - flag-free frames starting more than 2047 + own length octets after the noise.",
         ],
         clauses=[
-            HypClause("noise", case_st, oracle, quick=3500, thorough=300000),
-            EnumClause("debug-at-import", size=lambda tier: 4 if tier == "quick" else 16, case_at=lambda i, tier: (150 if tier == "quick" else 3000, int(os.environ.get("VERIF_SEED", "1") or 1) * 100 + i), oracle=fresh_interpreter_oracle, doc="noise cases in fresh interpreters where logging was at DEBUG before han was imported", exhaustive=False),
-            FuzzClause("coverage-guided", "C14", oracle, quick=(2, 250), thorough=(16, 40000), max_len=400, doc="atheris/libFuzzer campaigns on the same oracle (raw bytes -> splitting + noise), empty and fixture corpora"),
+            HypClause("noise", case_st, oracle, quick=3000, thorough=300000),
+            EnumClause("debug-at-import", size=lambda tier: 2 if tier == "quick" else 16, case_at=lambda i, tier: (80 if tier == "quick" else 3000, int(os.environ.get("VERIF_SEED", "1") or 1) * 100 + i), oracle=fresh_interpreter_oracle, doc="noise cases in fresh interpreters where logging was at DEBUG before han was imported", exhaustive=False),
+            FuzzClause("coverage-guided", "C14", oracle, quick=(2, 150), thorough=(16, 40000), max_len=400, doc="atheris/libFuzzer campaigns on the same oracle (raw bytes -> splitting + noise), empty and fixture corpora"),
         ],
     )
